@@ -120,8 +120,15 @@ def spec_tree(fmt, entries):
         k, up = rel_comps(name)
         if up:
             return None
-        if fmt == "txz" and (b".." in name.split(b"/") or (kind == "f" and name.endswith(b"/"))):
-            return None              # GNU tar's own policy (refuses every member name containing `..`): not llgo code
+        if fmt == "txz":
+            # GNU tar (not llgo code) has its own policy: it refuses every member name containing `..`, cannot create a
+            # regular file called `a/.` or `a/`, …  For tar.xz only canonical names are judged: [./]elem(/elem)*[/]
+            body = name[2:] if name.startswith(b"./") else name
+            if kind == "d" and body.endswith(b"/"):
+                body = body[:-1]
+            elems = body.split(b"/") if body else []
+            if any(c in (b"", b".", b"..") for c in elems) or (kind == "f" and not elems):
+                return None
         if kind == "d":
             if not mkdirs(k):
                 return None
